@@ -1,10 +1,10 @@
 SPECIFICATION Spec
 CONSTANTS
   Kids = {1, 2}
-  MaxOwn = 1
-  MaxDepth = 1
-  MaxTls = 2
-  MaxCell = 1
+  MaxOwn = 2
+  MaxDepth = 2
+  MaxTls = 3
+  MaxCell = 2
   ParentWalksChildTls = FALSE
 INVARIANT ThreadsOK
 PROPERTY Isolation
